@@ -80,6 +80,7 @@ type Contract struct {
 	Src       string
 	Lets      []GhostOut // named abbreviations: evaluated at entry (pre-state)
 	Skips     []string   // obligation kinds not generated (with reason recorded)
+	DeadRets  map[int]string // return statements (ordinal in source order) declared unreachable, with the reason
 	SkipWhy   string
 	Params    []string // for extern/iface: parameter names (self first for methods)
 	Results   []string // for extern/iface: named results
@@ -295,6 +296,19 @@ func (sp *Spec) loadFile(path, prefix string) error {
 			}
 		case "may_panic":
 			cur.MayPanic = strings.Trim(strings.TrimSpace(rest), `"`)
+		case "dead":
+			// dead return N "reason": the N-th return statement of the function (source order) is unreachable
+			// under the contract; every other return must be reachable on some path (vacuity guard)
+			w, r2 := splitWord(rest)
+			ns, why := splitWord(r2)
+			k, err := strconv.Atoi(ns)
+			if w != "return" || err != nil {
+				return fmt.Errorf("%s: dead return <n> \"reason\"", src)
+			}
+			if cur.DeadRets == nil {
+				cur.DeadRets = map[int]string{}
+			}
+			cur.DeadRets[k] = strings.Trim(strings.TrimSpace(why), `"`)
 		case "skip":
 			w, why := splitWord(rest)
 			cur.Skips = append(cur.Skips, w)
